@@ -39,6 +39,144 @@ def nontrivial(w, res):
             res.shape(*s)
 
 
+# ---- exhaustive departure table ---------------------------------------------------------------------------
+T = 1234
+STAGES = ["accepted", "connected", "sub-type", "sub-all", "paused", "logger-sub", "sub-closed-notices"]
+
+
+def _stage_ops(c, mid, stage):
+    if stage == "accepted":
+        return []
+    ops = [{"op": "connect", "c": c, "ver": "v2v1", "id": mid, "logger": 1 if stage == "logger-sub" else 0, "daemon": 0,
+            "multi": 0, "name": f"victim{mid}", "pid": 70 + c}]
+    if stage in ("sub-type", "paused", "logger-sub"):
+        ops.append({"op": "sub", "c": c, "kind": "SUBSCRIBE", "type": T})
+    if stage == "paused":
+        ops.append({"op": "sub", "c": c, "kind": "PAUSE", "type": T})
+    if stage == "sub-all":
+        ops.append({"op": "sub", "c": c, "kind": "SUBSCRIBE", "type": 0x7FFFFFFF})
+    if stage == "sub-closed-notices":
+        ops += [{"op": "sub", "c": c, "kind": "SUBSCRIBE", "type": 33}, {"op": "sub", "c": c, "kind": "SUBSCRIBE", "type": T}]
+    return ops
+
+
+def _ways(stage, hs):
+    ways = [("fin", {}), ("rst", {})]
+    for k in (1, hs - 1, hs, hs + 1, hs + 12):
+        ways += [("fin", {"partial": k}), ("rst", {"partial": k})]
+    if stage != "accepted":
+        ways.append(("disconnect", {}))
+        for g in ("epipe", "reset", "first-ok"):
+            ways += [("fin", {"gone": g}), ("rst", {"gone": g})]
+    if stage == "sub-type":
+        for k in (0, 1, hs - 1, hs, hs + 1, hs + 7, hs + 8):
+            ways.append(("fault", {"after": k}))
+    return ways
+
+
+def _leave_ops(c, way, arg):
+    if way == "disconnect":
+        return [{"op": "disconnect", "c": c}]
+    if way == "fault":
+        return [{"op": "fault", "c": c, "after": arg["after"], "exc": "epipe" if arg["after"] % 2 else "reset"}]
+    op = {"op": "close", "c": c, "how": way, "gone": arg.get("gone", "silent")}
+    if arg.get("partial"):
+        op["partial"] = arg["partial"]
+    return [op]
+
+
+def table_cases(tc):
+    hs = 56 if tc else 48
+    for stage in STAGES:
+        for way, arg in _ways(stage, hs):
+            seconds = [None] + [(s2, w2, a2) for s2 in ("sub-type", "sub-closed-notices", "logger-sub")
+                                for (w2, a2) in (("fin", {}), ("fin", {"gone": "epipe"}), ("rst", {"gone": "reset"}))]
+            for second in seconds:
+                for order in (("pub", "A", "B"), ("A", "B", "pub"), ("B", "pub", "A")):
+                    if second is None and order[0] == "B":
+                        continue
+                    yield stage, way, arg, second, order
+
+
+def table_script(tc, stage, way, arg, second, order):
+    from vlib.monitors import monitor_setup
+
+    ops = list(monitor_setup()) + [{"op": "_drain"}]
+    # conn 2 = victim A (id 10), conn 3 = victim B (id 11), conn 4 = publisher (id 12), conn 5 = survivor (id 13)
+    ops += [{"op": "open"}, {"op": "open"}, {"op": "open"}, {"op": "open"}, {"op": "_drain"}]
+    ops += _stage_ops(2, 10, stage)
+    if second:
+        ops += _stage_ops(3, 11, second[0])
+    ops += [{"op": "connect", "c": 4, "ver": "v2v1", "id": 12, "logger": 0, "daemon": 0, "multi": 0, "name": "pub", "pid": 4},
+            {"op": "connect", "c": 5, "ver": "v1", "id": 13, "logger": 0, "daemon": 0, "multi": 0, "name": "", "pid": 5},
+            {"op": "_drain"}, {"op": "sub", "c": 5, "kind": "SUBSCRIBE", "type": T}, {"op": "_drain"}]
+    ops += _leave_ops(2, way, arg)
+    if second:
+        ops += _leave_ops(3, second[1], second[2])
+    ops.append({"op": "pub", "c": 4, "type": T, "dm": 0, "dh": 0, "size": 8, "src": 12})
+    ready = []
+    for who in order:
+        c = {"pub": 4, "A": 2, "B": 3}[who]
+        if who == "B" and not second:
+            continue
+        if who == "A" and way == "fault":
+            continue  # nothing to read from a live victim
+        ready.append(c)
+    ops.append({"op": "step", "ready": ready, "writable": [0, 1, 2, 3, 4, 5], "dt": 0.0})
+    ops.append({"op": "_drain"})
+    # the id and name of victim A are reusable at once
+    if stage != "accepted":
+        ops += [{"op": "open"}, {"op": "connect", "c": 6, "ver": "v2v1", "id": 10, "logger": 0, "daemon": 0, "multi": 0,
+                                 "name": "victim10", "pid": 99}, {"op": "_drain"},
+                {"op": "sub", "c": 6, "kind": "SUBSCRIBE", "type": T}, {"op": "_drain"}]
+    ops += [{"op": "pub", "c": 4, "type": T, "dm": 0, "dh": 0, "size": 0, "src": 12}, {"op": "_drain"}]
+    return ops
+
+
+def shard_table(idx, nshards):
+    from vlib.common import Result, Violation
+    from vlib.script import run_script
+
+    res = Result()
+    n = 0
+    i = 0
+    for tc in (False, True):
+        cfg = {"timecode": tc, "timing": True, "log": "silent"}
+        for case in table_cases(tc):
+            i += 1
+            if i % nshards != idx:
+                continue
+            ops = table_script(tc, *case)
+            try:
+                run_script(cfg, ops, DEPARTURE.oracles, "C07", res, harvest=lambda w, r: None)
+            except Violation as v:
+                res.add_finding(v.key, v.what, {"kind": "script", "cfg": cfg, "ops": ops})
+            stage, way, arg, second, order = case
+            res.shape("table", stage, way, tuple(sorted(arg.items())), second[0] if second else None, order[0])
+            n += 1
+    res.evaluations += n
+    res.count("departure-table-cases", n)
+    return res
+
+
+def extra(ctx):
+    from vlib.common import run_shards
+
+    res = run_shards(shard_table, [(i, 16) for i in range(16)])
+    res.notes.append("sub-domain enumerated completely: 7 protocol stages x every way of leaving (DISCONNECT, FIN/RST clean, after 5 "
+                     "byte offsets of a frame, discovered on write with EPIPE/ECONNRESET/delayed failure, injected failure at 7 byte "
+                     "offsets of the outgoing frame) x (alone | with a second departing module of 3 stages x 3 ways) x 3 service "
+                     "orders of (publisher, victim, second victim) x both header layouts, each followed by an immediate reconnect "
+                     "with the same id and name")
+    return res
+
+
+def _replay_extra(tr):
+    from vlib.script import run_script
+
+    run_script(tr["cfg"], tr["ops"], DEPARTURE.oracles, "C07")
+
+
 CHECK = SimCheck(
     "C07", [DEPARTURE],
     [{"timecode": False, "timing": True, "log": "silent"}, {"timecode": True, "timing": False, "log": "silent"}],
@@ -47,6 +185,7 @@ CHECK = SimCheck(
            "peer is known exactly",
            "what CLIENT_CLOSED says about a connection refused at connect is not specified; only its port is matched",
            "whether the manager's socket for a connection is closed is read from the simulated kernel"],
-    quick=(800, 60), thorough=(20000, 150), nontrivial=nontrivial, min_clients=3,
+    quick=(800, 60), thorough=(20000, 150), nontrivial=nontrivial, min_clients=3, extra=extra,
 )
+CHECK.replay_extra = _replay_extra
 run, replay_trace, shard = CHECK.run, CHECK.replay_trace, CHECK.shard
